@@ -40,6 +40,19 @@ Proof.
       destruct (IH n _ o s1 T1 _ HG1 Hq2 Em) as [G L]. cbn [projs length]. auto.
 Qed.
 
+(* one column per qubit handed to M, whatever the phase rule, the order or repetitions in the qubit list *)
+Theorem measure_length rs det : forall qs n T o s T', measure rs det n T qs o = Some (s, T') -> length s = length qs.
+Proof.
+  induction qs as [|q qs IH]; intros n T o s T' H; cbn [measure] in H.
+  - now injection H as <- _.
+  - destruct (first_p n q T).
+    + destruct o as [|v os]; [discriminate|].
+      destruct (measure rs det n (random_outcome rs n T (n + n0) q v) qs os) as [[s1 T1]|] eqn:E; [|discriminate].
+      injection H as <- _. cbn. f_equal. exact (IH n _ os s1 T1 E).
+    + destruct (measure rs det n (upd (2 * n) (det n T q) T) qs o) as [[s1 T1]|] eqn:E; [|discriminate].
+      injection H as <- _. cbn. f_equal. exact (IH n _ o s1 T1 E).
+Qed.
+
 (* the state on which every recorded outcome has been projected is non-zero only on basis states that agree with the sample *)
 Lemma projs_agrees : forall qs s psi b, length s = length qs -> projs qs s psi b <> zi0 -> psi b <> zi0 /\ agrees b qs s.
 Proof.
